@@ -16,7 +16,7 @@ FILES = ["solvor/articulation.py", "solvor/kcore.py", "solvor/pagerank.py", "sol
 FUNCTIONS = ["solvor.articulation.articulation_points", "solvor.articulation.bridges", "solvor.kcore.kcore_decomposition", "solvor.kcore.kcore",
              "solvor.pagerank.pagerank", "solvor.pagerank.pagerank_edges[python]", "solvor.community.louvain"]
 BOUNDS = {
-    "quick": "articulation/bridges/kcore: every undirected graph on 4 nodes (64) under 3 node orders x 2 neighbour orders and on 5 nodes (1024) "
+    "quick": "empty and one-node graphs for every function; articulation/bridges/kcore: every undirected graph on 4 nodes (64) under 3 node orders x 2 neighbour orders and on 5 nodes (1024) "
              "under 1 order, symmetric neighbour lists and lists where each edge is listed by one endpoint only, with self-loop / duplicate-neighbour / outside-neighbour variants on 4 nodes, kcore(k) "
              "for symbolic k; pagerank: every loop-free digraph on 3 nodes (64) + 8 named 3-4 node digraphs with self loops, duplicate links and "
              "dangling nodes, damping in (0,1) and tol>=1e-12 symbolic, max_iter 2; louvain: every graph on 4 nodes + 6 named 5-6 node graphs, resolution>0 symbolic",
